@@ -1574,12 +1574,12 @@ def replay_dict(h, res, verdict, sample):
 def check(run):
     quick = run.tier == "quick"
     run.assumptions += [
-        "Coq 8.16.1 kernel + vm_compute; no axioms (Print Assumptions: closed under the global context for all 13 theorems)",
+        "Coq 8.16.1 kernel + vm_compute; no axioms (Print Assumptions: closed under the global context for all 15 theorems)",
         "the model transcribes the statistics call sites of src/client.rs, src/pool.rs, src/server.rs, src/stats*.rs at message granularity (validated on every run: model vs registries vs admin console at every quiescent point of every history)",
         "client / server ids (random i32) do not collide (2^-32 per pair): a collision makes client_register ignore the second client",
         "atomics with Ordering::Relaxed and the RwLock-protected registries behave sequentially consistently at op granularity",
         "tokio isolates a panicking task and drops its future (Drop for Client / Server run during unwinding)",
-        "timing columns (maxwait, *_time, age) are only checked for monotonicity; averages (avg_*) are not checked",
+        "timing columns (maxwait, *_time, age) are only checked for monotonicity; of the averages the count-valued ones (avg_xact_count, avg_query_count, avg_sent, avg_recv, avg_errors) are compared with the model, avg_*_time are not checked",
         "bytes: exact equality only in histories without backend faults (sent = bytes the mock backend received, received = bytes it wrote); bounds otherwise",
     ]
     run.cov["trusted_base"] = ["coqc 8.16.1 kernel", "vm_compute", "harness/src/{bin/wire.rs,mockpg.rs,client.rs,pooler.rs}", "props/c18.py (history generator, op derivation, canonicalisers, ledgers)",
